@@ -1,5 +1,6 @@
 import SV.Model.LayerLife
 import SV.Lemmas.Refcount
+import SV.Props.C10
 /-
 Helper lemmas for C12 (layer life cycle).  Composition with C10: both caches of the resolver are
 `SV.Refcount.TTL` states reachable by TTL operations (`Reach`), so C10's invariant `TInv` and C10's
@@ -916,5 +917,591 @@ theorem Inv.addLayer {s : State} {btok : Nat} (inv : Inv s (some btok)) {name : 
   · simp only [List.countP_append, List.countP_singleton, inv.l.dirs]
     simp
   · exact inv.x.attach _ rfl rfl
+
+/-- C10 `ttl_evicting_release_removes_own` for a reachable cache. -/
+theorem Reach.removes_own {t : TTL} (hr : Reach t) {tok : Nat} {tk : Tok} {k : Nat}
+    (ht : t.core.toks[tok]? = some tk) (hm : t.m k = some tk.rc) : (t.done tok true).1.m k = none := by
+  obtain ⟨ops, rfl⟩ := hr
+  exact SV.Props.C10.ttl_evicting_release_removes_own ops tok tk k ht hm
+
+/-- C10 `ttl_evicting_release_spares_newer` for a reachable cache. -/
+theorem Reach.spares_other {t : TTL} (hr : Reach t) {tok : Nat} {tk : Tok} {k id : Nat}
+    (ht : t.core.toks[tok]? = some tk) (hm : t.m k = some id) (hne : id ≠ tk.rc) :
+    (t.done tok true).1.m k = some id := by
+  obtain ⟨ops, rfl⟩ := hr
+  exact SV.Props.C10.ttl_evicting_release_spares_newer ops tok tk k id ht hm hne
+
+/-- The error path after a blob was resolved afresh: `blobR.done(true)` removes the new cache entry
+again and closes the new blob (its directory goes). -/
+theorem undo_fresh {s : State} (inv : Inv s none) {name : Nat} (hm : s.bc.m name = none) :
+    let s' : State := { s with httpDirs := s.httpDirs + 1, blobs := s.blobs ++ [({ name := name } : Blob)],
+                               bc := (s.bc.add name s.blobs.length).1 }
+    (∀ k id, (bcDone s' s.bc.core.toks.length true).bc.m k = some id → s.bc.m k = some id) ∧
+    (bcDone s' s.bc.core.toks.length true).httpDirs ≤ s.httpDirs := by
+  intro s'
+  have inv' : Inv s' (some s.bc.core.toks.length) := inv.addBlob hm
+  have hlen : s.bc.core.rcs.length = s.blobs.length := inv.b.link.len
+  have hbc' : s'.bc = { m := fun k' => if k' = name then some s.bc.core.rcs.length else s.bc.m k',
+                        core := (s.bc.core.newRc name s.blobs.length).newTok s.bc.core.rcs.length } := by
+    show (s.bc.add name s.blobs.length).1 = _
+    rw [TTL.add_new _ hm]
+  have htok : s'.bc.core.toks[s.bc.core.toks.length]? = some { rc := s.bc.core.rcs.length } := by
+    rw [hbc']; simp
+  have hmn : s'.bc.m name = some s.bc.core.rcs.length := by rw [hbc']; simp
+  have hrm : (s'.bc.done s.bc.core.toks.length true).1.m name = none :=
+    inv'.b.reach.removes_own htok hmn
+  constructor
+  · intro k id h
+    rw [bcDone_bc] at h
+    by_cases e : k = name
+    · subst e; rw [hrm] at h; cases h
+    · have := TTL.done_m_sub true h
+      rw [hbc'] at this
+      simpa [e] using this
+  · -- the callback of the new blob fires
+    have inv2 : TInv (s'.bc.done s.bc.core.toks.length true).1 := (inv'.b.reach.done _ _).inv
+    have fr := TTL.done_frame true htok
+    have hlt2 : s.bc.core.rcs.length < (s'.bc.done s.bc.core.toks.length true).1.core.rcs.length := by
+      rw [fr.len, hbc']; simp [Core.newRc]
+    obtain ⟨r2, hr2⟩ : ∃ r2, (s'.bc.done s.bc.core.toks.length true).1.core.rcs[s.bc.core.rcs.length]? = some r2 :=
+      ⟨_, List.getElem?_eq_getElem hlt2⟩
+    have ok2 := inv2.core.ok _ r2 hr2
+    have hfin : r2.finDone = true := by
+      have h := hr2
+      rw [TTL.done_true_core htok, fin_lookup] at h
+      cases hx : (s'.bc.core.release s.bc.core.toks.length).rcs[s.bc.core.rcs.length]? with
+      | none => simp [hx] at h
+      | some r0 =>
+        simp only [hx, Option.map_some, if_true, Option.some.injEq] at h
+        rw [← h]; simp
+    have hheld : held (s'.bc.done s.bc.core.toks.length true).1.core.toks s.bc.core.rcs.length = 0 := by
+      rw [TTL.done_toks true htok, held_set_released htok rfl]
+      have : held s'.bc.core.toks s.bc.core.rcs.length = 1 := by
+        rw [hbc']
+        simp only [newTok_toks, newRc_toks]
+        rw [held_append_one, held_eq_zero_of_fresh _ _ inv.b.reach.inv.core.tokLt]
+        simp
+      simp [this]
+    have hc2 : r2.calls = 1 := by
+      have := ok2.2.2
+      simpa [hfin, hheld] using this
+    obtain ⟨b', r', hb', hr', hv', _, _, hcl'⟩ := cached_open inv'.b.reach inv'.b.link hmn
+    obtain ⟨r0, hr0, _, hv0, _⟩ := fr.same _ hr2
+    rw [hr'] at hr0; cases hr0
+    have hc1 : r'.calls = 0 := by
+      obtain ⟨o, ho, _, _, hc⟩ := inv'.b.link.ok _ r' hr'
+      rw [hb'] at ho; cases ho
+      rw [hcl'] at hc
+      cases hcc : r'.calls with
+      | zero => rfl
+      | succ n =>
+        have := inv'.b.reach.inv.calls_le_one hr'
+        have : r'.calls = 1 := by omega
+        rw [this] at hc; simp at hc
+    unfold SV.LayerLife.bcDone
+    simp only [htok]
+    unfold bcFire
+    have hfire : callsOf s'.bc.core s.bc.core.rcs.length <
+        callsOf (s'.bc.done s.bc.core.toks.length true).1.core s.bc.core.rcs.length := by
+      rw [callsOf_of hr', callsOf_of hr2, hc1, hc2]; exact Nat.one_pos
+    simp only [hfire, if_true]
+    have hval : (s'.bc.done s.bc.core.toks.length true).1.core.valOf s.bc.core.rcs.length = s.bc.core.rcs.length := by
+      rw [valOf_of hr2, hv0, hv']
+    rw [hval, closeBlob_open (b := b') (by exact hb') hcl']
+    show s.httpDirs + 1 - 1 ≤ s.httpDirs
+    omega
+
+/-- What `resolveBlob` guarantees about its result `r` = (state, new `blobRef` or error). -/
+structure RB (s : State) (o : Oracle) (r : State × Option Nat) : Prop where
+  lc : r.1.lc = s.lc
+  layers : r.1.layers = s.layers
+  fsDirs : r.1.fsDirs = s.fsDirs
+  fail : r.2 = none → o.bres = false ∧ Inv r.1 none ∧
+    (∀ k id, r.1.bc.m k = some id → s.bc.m k = some id) ∧ r.1.httpDirs ≤ s.httpDirs
+  ok : ∀ btok, r.2 = some btok → Inv r.1 (some btok) ∧
+    (∀ k id, (bcDone r.1 btok true).bc.m k = some id → s.bc.m k = some id) ∧
+    (bcDone r.1 btok true).httpDirs ≤ s.httpDirs
+
+theorem RB.weaken {s0 s : State} {o : Oracle} {r : State × Option Nat} (h : RB s o r)
+    (e1 : s.lc = s0.lc) (e2 : s.layers = s0.layers) (e3 : s.fsDirs = s0.fsDirs)
+    (bcm : ∀ k id, s.bc.m k = some id → s0.bc.m k = some id) (http : s.httpDirs ≤ s0.httpDirs) :
+    RB s0 o r :=
+  ⟨h.lc.trans e1, h.layers.trans e2, h.fsDirs.trans e3,
+   fun hn => let ⟨a, b, c, d⟩ := h.fail hn; ⟨a, b, fun k id x => bcm k id (c k id x), Int.le_trans d http⟩,
+   fun btok hs => let ⟨a, c, d⟩ := h.ok btok hs; ⟨a, fun k id x => bcm k id (c k id x), Int.le_trans d http⟩⟩
+
+theorem rbf_spec {s : State} (inv : Inv s none) {name : Nat} (hm : s.bc.m name = none) (o : Oracle) :
+    RB s o (resolveBlobFresh s name o) := by
+  cases hb : o.bres with
+  | false =>
+    rw [rbf_fail hb]
+    exact ⟨rfl, rfl, rfl, fun _ => ⟨hb, inv.fixHttp, fun _ _ h => h, by simp only; omega⟩,
+      (fun btok h => by cases h)⟩
+  | true =>
+    rw [rbf_ok hb hm]
+    refine ⟨rfl, rfl, rfl, (fun h => by cases h), ?_⟩
+    intro btok h
+    cases h
+    have := undo_fresh inv hm
+    exact ⟨inv.addBlob hm, this.1, this.2⟩
+
+theorem rbf_some {s : State} {name : Nat} {o : Oracle} (hb : o.bres = true) (hm : s.bc.m name = none) :
+    ∃ btok, (resolveBlobFresh s name o).2 = some btok := by
+  rw [rbf_ok hb hm]; exact ⟨_, rfl⟩
+
+theorem resolveBlob_miss {s : State} {name : Nat} (o : Oracle) (hm : s.bc.m name = none) :
+    resolveBlob s name o = resolveBlobFresh s name o := by
+  simp [resolveBlob, TTL.get_miss hm]
+
+theorem resolveBlob_hit {s : State} (inv : Inv s none) {name id : Nat} (o : Oracle) (hm : s.bc.m name = some id) :
+    resolveBlob s name o =
+      if o.bchk then
+        ({ s with bc := { s.bc with core := s.bc.core.newTok id } }, some s.bc.core.toks.length)
+      else
+        resolveBlobFresh
+          (bcEvict (bcDone { s with bc := { s.bc with core := s.bc.core.newTok id } } s.bc.core.toks.length true) name)
+          name o := by
+  obtain ⟨b, r, hb, hr, hv, _, _, hc⟩ := cached_open inv.b.reach inv.b.link hm
+  have hval : s.bc.core.valOf id = id := by rw [valOf_of hr, hv]
+  have hchk : ∀ probe, blobCheck { s with bc := { s.bc with core := s.bc.core.newTok id } } id probe = probe := by
+    intro probe; simp [blobCheck, blobClosed, hb, hc]
+  simp only [resolveBlob, TTL.get_hit hm, hval, hchk]
+
+theorem resolveBlob_spec {s : State} (inv : Inv s none) (name : Nat) (o : Oracle) :
+    RB s o (resolveBlob s name o) := by
+  cases hm : s.bc.m name with
+  | none => rw [resolveBlob_miss o hm]; exact rbf_spec inv hm o
+  | some id =>
+    rw [resolveBlob_hit inv o hm]
+    have inv1 := inv.getBlob hm
+    cases hb : o.bchk with
+    | true =>
+      simp only [if_true]
+      refine ⟨rfl, rfl, rfl, (fun h => by cases h), ?_⟩
+      intro btok h
+      cases h
+      have sb := sub_bcDone { s with bc := { s.bc with core := s.bc.core.newTok id } } s.bc.core.toks.length true
+      exact ⟨inv1, fun k id' h => sb.bcm k id' h, sb.http⟩
+    | false =>
+      simp only [Bool.false_eq_true, if_false]
+      have inv2 := inv1.bcDonePending
+      have inv3 := inv2.bcEvict name
+      have hm3 : (bcEvict (bcDone { s with bc := { s.bc with core := s.bc.core.newTok id } }
+          s.bc.core.toks.length true) name).bc.m name = none := by
+        rw [bcEvict_bc]; exact TTL.evictLocked_none_self _ _
+      have sb := (sub_bcDone { s with bc := { s.bc with core := s.bc.core.newTok id } }
+        s.bc.core.toks.length true).trans (sub_bcEvict _ name)
+      exact (rbf_spec inv3 hm3 o).weaken (by simp) (by simp) (by simp)
+        (fun k id' h => sb.bcm k id' h) sb.http
+
+theorem resolveBlob_some {s : State} (inv : Inv s none) (name : Nat) {o : Oracle} (hb : o.bres = true) :
+    ∃ btok, (resolveBlob s name o).2 = some btok := by
+  cases hm : s.bc.m name with
+  | none => rw [resolveBlob_miss o hm]; exact rbf_some hb hm
+  | some id =>
+    rw [resolveBlob_hit inv o hm]
+    cases o.bchk with
+    | true => exact ⟨_, rfl⟩
+    | false =>
+      simp only [Bool.false_eq_true, if_false]
+      exact rbf_some hb (by rw [bcEvict_bc]; exact TTL.evictLocked_none_self _ _)
+
+theorem bcDone_setFs (s : State) (x : Int) (tok : Nat) (e : Bool) :
+    bcDone { s with fsDirs := x } tok e = { bcDone s tok e with fsDirs := x } := by
+  unfold bcDone
+  simp only
+  split
+  · rfl
+  · unfold bcFire
+    simp only
+    split
+    · unfold closeBlob
+      simp only
+      split
+      · rfl
+      · split <;> rfl
+    · rfl
+
+/-- What `Resolve` guarantees after a layer-cache miss; `r` = (state, result). -/
+structure RF (s : State) (name : Nat) (o : Oracle) (r : State × Out) : Prop where
+  inv : Inv r.1 none
+  res :
+    (r.2 = .errBlob ∧ o.bres = false ∧ Sub s r.1 ∧ r.1.lc = s.lc) ∨
+    (r.2 = .errMeta ∧ o.mres = false ∧ Sub s r.1 ∧ r.1.lc = s.lc) ∨
+    (r.2 = .fresh s.layers.length s.lc.core.toks.length ∧ o.mres = true ∧
+      r.1.lc = (s.lc.add name s.layers.length).1 ∧
+      ∃ btok, r.1.layers = s.layers ++ [({ name := name, blobTok := btok } : Layer)])
+
+theorem resolveFresh_spec {s : State} (inv : Inv s none) {name : Nat} (hm : s.lc.m name = none) (o : Oracle) :
+    RF s name o (resolveFresh s name o) := by
+  have rb := resolveBlob_spec inv name o
+  unfold resolveFresh
+  cases hrb : resolveBlob s name o with
+  | mk s1 ob =>
+    rw [hrb] at rb
+    cases ob with
+    | none =>
+      obtain ⟨hb, inv1, bcm, http⟩ := rb.fail rfl
+      refine ⟨inv1, Or.inl ⟨rfl, hb, ⟨?_, bcm, ?_, ?_, http⟩, rb.lc⟩⟩
+      · intro k id h; rw [show s1.lc = s.lc from rb.lc] at h; exact h
+      · rw [show s1.layers = s.layers from rb.layers]
+      · rw [show s1.fsDirs = s.fsDirs from rb.fsDirs]; exact Int.le_refl _
+    | some btok =>
+      obtain ⟨inv1, bcm, http⟩ := rb.ok btok rfl
+      have e1 : s1.lc = s.lc := rb.lc
+      have e2 : s1.layers = s.layers := rb.layers
+      have e3 : s1.fsDirs = s.fsDirs := rb.fsDirs
+      cases hmr : o.mres with
+      | false =>
+        simp only [Bool.not_false, if_true]
+        refine ⟨inv1.fixFs.bcDonePending, Or.inr (Or.inl ⟨rfl, hmr, ?_, ?_⟩)⟩
+        · rw [bcDone_setFs]
+          refine ⟨?_, bcm, ?_, ?_, http⟩
+          · intro k id h; simp only [bcDone_lc] at h; rw [e1] at h; exact h
+          · simp [e2]
+          · simp only [e3]; omega
+        · rw [bcDone_lc]; exact e1
+      | true =>
+        simp only [Bool.not_true, Bool.false_eq_true, if_false]
+        have hm1 : s1.lc.m name = none := by rw [e1]; exact hm
+        rw [TTL.add_new _ hm1]
+        simp only [if_true]
+        have ia := inv1.addLayer hm1
+        rw [TTL.add_new _ hm1] at ia
+        refine ⟨ia, Or.inr (Or.inr ⟨?_, hmr, ?_, btok, ?_⟩)⟩
+        · simp only [e1, e2]
+        · simp only [e1, e2]; rw [TTL.add_new _ hm]
+        · simp only [e2]
+
+theorem resolveFresh_ok {s : State} (inv : Inv s none) {name : Nat} (hm : s.lc.m name = none) {o : Oracle}
+    (hb : o.bres = true) (hr : o.mres = true) :
+    (resolveFresh s name o).2 = .fresh s.layers.length s.lc.core.toks.length := by
+  have sp := resolveFresh_spec inv hm o
+  rcases sp.res with ⟨_, h, _⟩ | ⟨_, h, _⟩ | ⟨h, _⟩
+  · rw [hb] at h; cases h
+  · rw [hr] at h; cases h
+  · exact h
+
+theorem resolve_miss {s : State} {name : Nat} (o : Oracle) (hm : s.lc.m name = none) :
+    resolve s name o = resolveFresh s name o := by
+  simp [resolve, TTL.get_miss hm]
+
+theorem resolve_hit {s : State} (inv : Inv s none) {name a : Nat} (o : Oracle) (hm : s.lc.m name = some a) :
+    resolve s name o =
+      if o.lchk then
+        ({ s with lc := { s.lc with core := s.lc.core.newTok a } }, .hit a s.lc.core.toks.length)
+      else
+        resolveFresh
+          (lcEvict (lcDone { s with lc := { s.lc with core := s.lc.core.newTok a } } s.lc.core.toks.length true) name)
+          name o := by
+  obtain ⟨l, r, hl, hr, hv, _, _, hc⟩ := cached_open inv.l.reach inv.l.link hm
+  have hval : s.lc.core.valOf a = a := by rw [valOf_of hr, hv]
+  have hchk : ∀ probe, layerCheck { s with lc := { s.lc with core := s.lc.core.newTok a } } a probe = probe :=
+    fun probe => layerCheck_cached (inv.getLayer hm) (k := name) (by exact hm) probe
+  simp only [resolve, TTL.get_hit hm, hval, hchk]
+
+/-- Every `Resolve` keeps the invariant. -/
+theorem Inv.resolve {s : State} (inv : Inv s none) (name : Nat) (o : Oracle) : Inv (resolve s name o).1 none := by
+  cases hm : s.lc.m name with
+  | none => rw [resolve_miss o hm]; exact (resolveFresh_spec inv hm o).inv
+  | some a =>
+    rw [resolve_hit inv o hm]
+    cases o.lchk with
+    | true => exact inv.getLayer hm
+    | false =>
+      simp only [Bool.false_eq_true, if_false]
+      refine (resolveFresh_spec (((inv.getLayer hm).lcDone _ _).lcEvict name) ?_ o).inv
+      rw [lcEvict_lc]; exact TTL.evictLocked_none_self _ _
+
+theorem Inv.step {s : State} (inv : Inv s none) (op : Op) : Inv (step s op).1 none := by
+  cases op with
+  | resolve n o => exact inv.resolve n o
+  | done tok e =>
+    simp only [SV.LayerLife.step]
+    split
+    · exact inv
+    · exact inv.lcDone tok e
+  | expireL n => exact inv.lcEvict n
+  | expireB n => exact inv.bcEvict n
+  | refresh tok reg => exact inv
+  | read tok => exact inv
+  | readOld tok => exact inv
+
+theorem Inv.runFrom (ops : List Op) : ∀ {s : State}, Inv s none → Inv (runFrom s ops) none := by
+  induction ops with
+  | nil => intro s h; exact h
+  | cons o ops ih => intro s h; exact ih (h.step o)
+
+theorem Inv.run (ops : List Op) : Inv (run ops) none := Inv.runFrom ops Inv.init
+
+/-! ## J. facts about single operations used by the property theorems -/
+
+/-- The layer and the holder's closure a successful `Resolve` returns. -/
+def Out.layer? : Out → Option (Nat × Nat)
+  | .hit lid tok => some (lid, tok)
+  | .fresh lid tok => some (lid, tok)
+  | .existing lid tok => some (lid, tok)
+  | _ => none
+
+def Out.isErr : Out → Bool
+  | .errBlob => true
+  | .errMeta => true
+  | _ => false
+
+theorem addNew_facts {t : TTL} {k : Nat} (v : Nat) (hm : t.m k = none) :
+    (t.add k v).1.m k = some t.core.rcs.length ∧
+    (t.add k v).1.core.toks = t.core.toks ++ [{ rc := t.core.rcs.length }] ∧
+    ∀ k', k' ≠ k → (t.add k v).1.m k' = t.m k' := by
+  rw [TTL.add_new _ hm]
+  refine ⟨by simp, by simp, ?_⟩
+  intro k' h; simp [h]
+
+/-- After a layer-cache miss: the result is an error or a brand-new layer, cached under `name`,
+with a new un-called closure for the caller. -/
+theorem resolveFresh_shape {s : State} (inv : Inv s none) {name : Nat} (hm : s.lc.m name = none) (o : Oracle)
+    {lid tok : Nat} (h : (resolveFresh s name o).2.layer? = some (lid, tok)) :
+    lid = s.layers.length ∧ tok = s.lc.core.toks.length ∧
+    (resolveFresh s name o).1.lc.m name = some lid ∧
+    (resolveFresh s name o).1.lc.core.toks[tok]? = some { rc := lid } ∧
+    (∀ k', k' ≠ name → (resolveFresh s name o).1.lc.m k' = s.lc.m k') := by
+  have sp := resolveFresh_spec inv hm o
+  rcases sp.res with ⟨hr, _⟩ | ⟨hr, _⟩ | ⟨hr, _, hlc, _⟩
+  · rw [hr] at h; cases h
+  · rw [hr] at h; cases h
+  · rw [hr] at h; cases h
+    have f := addNew_facts s.layers.length hm
+    have hlen : s.lc.core.rcs.length = s.layers.length := inv.l.link.len
+    rw [hlc]
+    refine ⟨rfl, rfl, by rw [f.1, hlen], ?_, f.2.2⟩
+    rw [f.2.1, hlen]; simp
+
+theorem resolveFresh_err {s : State} (inv : Inv s none) {name : Nat} (hm : s.lc.m name = none) (o : Oracle)
+    (h : (resolveFresh s name o).2.isErr = true) :
+    Sub s (resolveFresh s name o).1 ∧ (resolveFresh s name o).1.lc = s.lc := by
+  have sp := resolveFresh_spec inv hm o
+  rcases sp.res with ⟨_, _, hs, hl⟩ | ⟨_, _, hs, hl⟩ | ⟨hr, _⟩
+  · exact ⟨hs, hl⟩
+  · exact ⟨hs, hl⟩
+  · rw [hr] at h; cases h
+
+/-- The state in which `Resolve` continues after the cached layer failed its check. -/
+def afterBadCheck (s : State) (name a : Nat) : State :=
+  lcEvict (lcDone { s with lc := { s.lc with core := s.lc.core.newTok a } } s.lc.core.toks.length true) name
+
+theorem afterBadCheck_inv {s : State} (inv : Inv s none) {name a : Nat} (hm : s.lc.m name = some a) :
+    Inv (afterBadCheck s name a) none ∧ (afterBadCheck s name a).lc.m name = none :=
+  ⟨((inv.getLayer hm).lcDone _ _).lcEvict name, by
+    unfold afterBadCheck; rw [lcEvict_lc]; exact TTL.evictLocked_none_self _ _⟩
+
+theorem afterBadCheck_sub (s : State) (name a : Nat) : Sub s (afterBadCheck s name a) := by
+  unfold afterBadCheck
+  refine Sub.trans (b := { s with lc := { s.lc with core := s.lc.core.newTok a } }) ?_
+    ((sub_lcDone _ _ _).trans (sub_lcEvict _ _))
+  exact ⟨fun _ _ h => h, fun _ _ h => h, rfl, Int.le_refl _, Int.le_refl _⟩
+
+theorem afterBadCheck_toks (s : State) (name a : Nat) :
+    (afterBadCheck s name a).lc.core.toks =
+      s.lc.core.toks ++ [{ rc := a, once := true }] := by
+  unfold afterBadCheck
+  rw [lcEvict_lc, TTL.evictLocked_toks]
+  have ht : ({ s with lc := { s.lc with core := s.lc.core.newTok a } } : State).lc.core.toks[s.lc.core.toks.length]?
+      = some { rc := a } := by simp
+  rw [lcDone_toks true ht]
+  simp
+
+theorem resolve_hit' {s : State} (inv : Inv s none) {name a : Nat} (o : Oracle) (hm : s.lc.m name = some a) :
+    resolve s name o =
+      if o.lchk then
+        ({ s with lc := { s.lc with core := s.lc.core.newTok a } }, .hit a s.lc.core.toks.length)
+      else resolveFresh (afterBadCheck s name a) name o := resolve_hit inv o hm
+
+/-- A key other than the one the evicting closure belongs to keeps its entry. -/
+theorem Reach.done_m_other {t : TTL} (hr : Reach t) {tok : Nat} {tk : Tok} {k k' : Nat}
+    (ht : t.core.toks[tok]? = some tk) (hm : t.m k = some tk.rc) (hne : k' ≠ k) :
+    (t.done tok true).1.m k' = t.m k' := by
+  cases h : t.m k' with
+  | none =>
+    cases h2 : (t.done tok true).1.m k' with
+    | none => rfl
+    | some x => rw [TTL.done_m_sub true h2] at h; cases h
+  | some b =>
+    refine hr.spares_other ht h ?_
+    intro e
+    obtain ⟨r1, hr1, hk1, _⟩ := hr.inv.mOk k' b h
+    obtain ⟨r2, hr2, hk2, _⟩ := hr.inv.mOk k tk.rc hm
+    rw [e, hr2] at hr1; cases hr1
+    exact hne (hk1.symm.trans hk2)
+
+theorem evictLocked_m_other (t : TTL) {k k' : Nat} (hne : k' ≠ k) : (t.evictLocked k).m k' = t.m k' := by
+  unfold TTL.evictLocked; split <;> simp [hne]
+
+theorem afterBadCheck_m_other {s : State} (inv : Inv s none) {name a : Nat} (hm : s.lc.m name = some a)
+    {k' : Nat} (hne : k' ≠ name) : (afterBadCheck s name a).lc.m k' = s.lc.m k' := by
+  unfold afterBadCheck
+  rw [lcEvict_lc, evictLocked_m_other _ hne, lcDone_lc]
+  have inv1 := inv.getLayer hm
+  exact inv1.l.reach.done_m_other (tk := { rc := a }) (by simp) (by exact hm) hne
+
+/-- What a successful `Resolve` returns: either the cached layer (its check passed) or a brand-new
+one; either way the layer is now cached under `name` and the caller got a fresh closure of it. -/
+theorem resolve_ok_shape {s : State} (inv : Inv s none) (name : Nat) (o : Oracle) {lid tok : Nat}
+    (h : (resolve s name o).2.layer? = some (lid, tok)) :
+    ((s.lc.m name = some lid ∧ o.lchk = true) ∨ lid = s.layers.length) ∧
+    s.lc.core.toks.length ≤ tok ∧
+    (resolve s name o).1.lc.m name = some lid ∧
+    (∃ tk, (resolve s name o).1.lc.core.toks[tok]? = some tk ∧ tk.rc = lid ∧ tk.once = false) ∧
+    (∀ k', k' ≠ name → (resolve s name o).1.lc.m k' = s.lc.m k') := by
+  cases hm : s.lc.m name with
+  | none =>
+    rw [resolve_miss o hm] at h ⊢
+    obtain ⟨h1, h2, h3, h4, h5⟩ := resolveFresh_shape inv hm o h
+    exact ⟨Or.inr h1, by omega, h3, ⟨_, h4, rfl, rfl⟩, h5⟩
+  | some a =>
+    rw [resolve_hit' inv o hm] at h ⊢
+    cases hc : o.lchk with
+    | true =>
+      rw [hc, if_pos rfl] at h
+      rw [if_pos rfl]
+      cases h
+      exact ⟨Or.inl ⟨rfl, rfl⟩, Nat.le_refl _, hm, ⟨{ rc := lid }, by simp, rfl, rfl⟩, fun _ _ => rfl⟩
+    | false =>
+      simp only [hc, Bool.false_eq_true, if_false] at h ⊢
+      obtain ⟨inv3, hm3⟩ := afterBadCheck_inv inv hm
+      obtain ⟨h1, h2, h3, h4, h5⟩ := resolveFresh_shape inv3 hm3 o h
+      refine ⟨Or.inr (h1.trans (afterBadCheck_sub s name a).nlay), ?_, h3, ⟨_, h4, rfl, rfl⟩, ?_⟩
+      · rw [h2, afterBadCheck_toks]; simp
+      · intro k' hk'; rw [h5 k' hk', afterBadCheck_m_other inv hm hk']
+
+/-- What a failed `Resolve` leaves behind: nothing new, and its own layer-cache closure is released. -/
+theorem resolve_err {s : State} (inv : Inv s none) (name : Nat) (o : Oracle)
+    (h : (resolve s name o).2.isErr = true) :
+    Sub s (resolve s name o).1 ∧
+    (∀ tok t, (resolve s name o).1.lc.core.toks[tok]? = some t → s.lc.core.toks.length ≤ tok → t.once = true) ∧
+    (∀ k', k' ≠ name → (resolve s name o).1.lc.m k' = s.lc.m k') := by
+  cases hm : s.lc.m name with
+  | none =>
+    rw [resolve_miss o hm] at h ⊢
+    obtain ⟨hs, hl⟩ := resolveFresh_err inv hm o h
+    refine ⟨hs, ?_, fun _ _ => by rw [hl]⟩
+    intro tok t ht hle
+    rw [hl] at ht
+    have := (List.getElem_of_getElem? ht).1
+    omega
+  | some a =>
+    rw [resolve_hit' inv o hm] at h ⊢
+    cases hc : o.lchk with
+    | true => simp [hc, Out.isErr] at h
+    | false =>
+      simp only [hc, Bool.false_eq_true, if_false] at h ⊢
+      obtain ⟨inv3, hm3⟩ := afterBadCheck_inv inv hm
+      obtain ⟨hs, hl⟩ := resolveFresh_err inv3 hm3 o h
+      refine ⟨(afterBadCheck_sub s name a).trans hs, ?_, ?_⟩
+      · intro tok t ht hle
+        rw [hl, afterBadCheck_toks] at ht
+        rw [List.getElem?_append] at ht
+        split at ht
+        · omega
+        · rename_i hge
+          cases hj : tok - s.lc.core.toks.length with
+          | zero => simp [hj] at ht; rw [← ht]
+          | succ n => simp [hj] at ht
+      · intro k' hk'; rw [hl, afterBadCheck_m_other inv hm hk']
+
+theorem resolveFresh_dichotomy {s : State} (inv : Inv s none) {name : Nat} (hm : s.lc.m name = none) (o : Oracle) :
+    (resolveFresh s name o).2.isErr = true ∨ ∃ lid tok, (resolveFresh s name o).2.layer? = some (lid, tok) := by
+  rcases (resolveFresh_spec inv hm o).res with ⟨hr, _⟩ | ⟨hr, _⟩ | ⟨hr, _⟩
+  · left; rw [hr]; rfl
+  · left; rw [hr]; rfl
+  · right; rw [hr]; exact ⟨_, _, rfl⟩
+
+theorem resolve_dichotomy {s : State} (inv : Inv s none) (name : Nat) (o : Oracle) :
+    (resolve s name o).2.isErr = true ∨ ∃ lid tok, (resolve s name o).2.layer? = some (lid, tok) := by
+  cases hm : s.lc.m name with
+  | none => rw [resolve_miss o hm]; exact resolveFresh_dichotomy inv hm o
+  | some a =>
+    rw [resolve_hit' inv o hm]
+    cases o.lchk with
+    | true => right; exact ⟨_, _, rfl⟩
+    | false =>
+      simp only [Bool.false_eq_true, if_false]
+      exact resolveFresh_dichotomy (afterBadCheck_inv inv hm).1 (afterBadCheck_inv inv hm).2 o
+
+/-- `Resolve` of one name never touches the layer-cache entry of another name. -/
+theorem resolve_m_other {s : State} (inv : Inv s none) (n : Nat) (o : Oracle) {k' : Nat} (hne : k' ≠ n) :
+    (resolve s n o).1.lc.m k' = s.lc.m k' := by
+  rcases resolve_dichotomy inv n o with h | ⟨lid, tok, h⟩
+  · exact (resolve_err inv n o h).2.2 k' hne
+  · exact (resolve_ok_shape inv n o h).2.2.2.2 k' hne
+
+/-- The operations that can take the layer cached under `name` out of the cache: its timer, an
+evicting release (`Close`) and a `Resolve` of that name whose connectivity check fails. -/
+def mayEvict (name : Nat) : Op → Bool
+  | .expireL n => n == name
+  | .done _ e => e
+  | .resolve n o => n == name && !o.lchk
+  | _ => false
+
+theorem keeps_entry {s : State} (inv : Inv s none) {name a : Nat} (hm : s.lc.m name = some a) {op : Op}
+    (h : mayEvict name op = false) : (step s op).1.lc.m name = some a := by
+  cases op with
+  | resolve n o =>
+    simp only [SV.LayerLife.step]
+    by_cases e : n = name
+    · subst e
+      have hl : o.lchk = true := by simpa [mayEvict] using h
+      rw [resolve_hit' inv o hm, hl, if_pos rfl]
+      exact hm
+    · rw [resolve_m_other inv n o (Ne.symm e)]; exact hm
+  | done tok e =>
+    have he : e = false := by simpa [mayEvict] using h
+    subst he
+    simp only [SV.LayerLife.step]
+    split
+    · exact hm
+    · rw [lcDone_lc, TTL.done_false_eq]; exact hm
+  | expireL n =>
+    have hn : name ≠ n := by
+      intro e; subst e; simp [mayEvict] at h
+    simp only [SV.LayerLife.step]
+    rw [lcEvict_lc, evictLocked_m_other _ hn]; exact hm
+  | expireB n => simp only [SV.LayerLife.step]; rw [bcEvict_lc]; exact hm
+  | refresh tok reg => exact hm
+  | read tok => exact hm
+  | readOld tok => exact hm
+
+theorem keeps_entry_run {name a : Nat} (ops : List Op) : ∀ {s : State}, Inv s none → s.lc.m name = some a →
+    (∀ op ∈ ops, mayEvict name op = false) → (runFrom s ops).lc.m name = some a := by
+  induction ops with
+  | nil => intro s _ hm _; exact hm
+  | cons o ops ih =>
+    intro s inv hm h
+    exact ih (inv.step o) (keeps_entry inv hm (h o (List.mem_cons_self ..)))
+      (fun op hop => h op (List.mem_cons_of_mem _ hop))
+
+/-- Every closure of the blob cache that has not been called belongs to an open layer; so a blob
+all of whose layers are closed has no holder left. -/
+theorem blob_unheld {s : State} (inv : Inv s none) {bid : Nat}
+    (h : ∀ (i : Nat) (l : Layer), s.layers[i]? = some l → blobOfTok s l.blobTok = some bid → l.closed = true) :
+    held s.bc.core.toks bid = 0 := by
+  cases hh : held s.bc.core.toks bid with
+  | zero => rfl
+  | succ n =>
+    exfalso
+    have hp : 0 < held s.bc.core.toks bid := by omega
+    simp only [held, List.countP_pos_iff] at hp
+    obtain ⟨t, hmem, ht⟩ := hp
+    obtain ⟨tok, htok⟩ := List.getElem?_of_mem hmem
+    have hrc : t.rc = bid := by simp at ht; exact ht.1
+    have ho : t.once = false := by simp at ht; exact ht.2
+    rcases inv.x.orphan tok t htok ho with ⟨i, l, hl, hbt⟩ | hp
+    · obtain ⟨t', ht', hoc⟩ := inv.x.btok i l hl
+      rw [hbt, htok] at ht'; cases ht'
+      obtain ⟨b, r, _, hr, hv, _⟩ := held_open inv.b.reach inv.b.link htok ho
+      have : blobOfTok s l.blobTok = some bid := by
+        subst hrc
+        simp [blobOfTok, hbt, htok, valOf_of hr, hv]
+      have := h i l hl this
+      rw [this] at hoc; rw [ho] at hoc; cases hoc
+    · cases hp
 
 end SV.LayerLife
